@@ -279,6 +279,9 @@ Section Generic.
 
   (* ---- repeated runs ---------------------------------------------------------------------------- *)
 
+  Lemma run_n_snoc k store pend : fst (step pf (run_n pf k store pend) pend) = run_n pf k (fst (step pf store pend)) pend.
+  Proof. revert store. induction k as [|k IH]; intros store; cbn [run_n]; auto. Qed.
+
   (** one run with budget m covers at least min(m, remaining) more of the pending comments that can be placed *)
   Lemma todo_decreases m store pend :
     L1 pend -> (forall k, can_create pf k = (k <? m)) ->
